@@ -268,7 +268,11 @@ impl Complex::<f64> {
     /// Return the absolute value ( |z| = sqrt( z * z.conj() ) )
     #[inline]
     pub fn abs(&self) -> f64 {
-        f64::sqrt( self.abs_sqr() )
+        let sqr = self.abs_sqr();
+        // ordinary range: neither square overflowed and whatever underflowed is negligible
+        if sqr >= 1.0e-270 && sqr <= 1.0e270 { return f64::sqrt( sqr ); }
+        // otherwise ( |z| beyond 1.3e154 gave inf, |z| below 1.5e-162 gave 0 ) take the scaled form
+        self.real.hypot( self.imag )
     }
 }
 
